@@ -112,7 +112,8 @@ def load_known_findings():
 def finding_matches(entry, prop, obligation, witness_text):
     if entry.get("property") != prop:
         return False
-    if not fnmatch.fnmatch(obligation, entry.get("obligation", "*")):
+    pats = entry.get("obligation", "*")
+    if not any(fnmatch.fnmatch(obligation, p) for p in (pats if isinstance(pats, list) else [pats])):
         return False
     needle = entry.get("witness_contains")
     if needle:
